@@ -1711,6 +1711,11 @@ class Kconfig(object):
     def _assigned_twice(self, sym, new_val, filename, linenr):
         # Called when a symbol is assigned more than once in a .config file
 
+        if sym._user_value is None:
+            # The symbol was set at some point, but its value has been unset or reset to the default
+            # since then (_was_set is only cleared by a replacing load): nothing is overridden.
+            return
+
         # Use strings for bool user values in the warning
         if sym.orig_type == BOOL:
             user_val = BOOL_TO_STR[sym._user_value]
